@@ -36,18 +36,42 @@ func runC18(e *Env) {
 	c06Isolation(e)
 }
 
-func existsLit(lits []ir.NLit, arg ssa.Value, pol bool) bool {
-	return HasVal(lits, func(v ssa.Value) bool {
-		c, ok := ir.Resolve(v).(*ssa.Call)
+// existsIn: the conjunction says the file `arg` exists (pol) / does not exist
+// (!pol), through whatever existence predicate the repository uses; arg == nil
+// accepts any file. The literals may come from helpers (bound frames).
+func (e *Env) existsIn(alt []BLit, arg ssa.Value, pol bool) (bool, ssa.Value) {
+	for _, bl := range alt {
+		if bl.Kind != "val" {
+			continue
+		}
+		c, ok := ir.Resolve(bl.V).(*ssa.Call)
 		if !ok {
+			continue
+		}
+		is, positive := e.existsPredicate(c.Call.StaticCallee())
+		if !is || (bl.Pol == positive) != pol {
+			continue
+		}
+		a := bl.Val(c.Call.Args[len(c.Call.Args)-1])
+		if arg == nil || a == ir.Deep(arg) {
+			return true, a
+		}
+	}
+	return false, nil
+}
+
+// existsAll: every way the conditions can hold (helpers expanded) says so.
+func (e *Env) existsAll(lits []ir.NLit, arg ssa.Value, pol bool) bool {
+	alts := e.expandBound(lits)
+	if len(alts) == 0 {
+		return false
+	}
+	for _, alt := range alts {
+		if ok, _ := e.existsIn(alt, arg, pol); !ok {
 			return false
 		}
-		n := ir.CalleeName(&c.Call)
-		if !(strings.HasSuffix(n, ".exists") || strings.HasSuffix(n, ".FileExists")) {
-			return false
-		}
-		return arg == nil || ir.Resolve(c.Call.Args[len(c.Call.Args)-1]) == ir.Resolve(arg)
-	}, pol)
+	}
+	return true
 }
 
 var truncatingWrites = []string{"os.WriteFile", "os.Create", "io/ioutil.WriteFile"}
@@ -61,12 +85,19 @@ func c18Guards(e *Env) {
 	r.Rule("C18.create-guard", "DCS", "Create writes only under !exists(loc)", 1)
 	if create != nil {
 		n := 0
-		for _, ci := range ir.CallsIn(create, func(c *ssa.CallCommon) bool {
-			return ir.IsCallTo(c, append([]string{"os.OpenFile", "os.Rename"}, truncatingWrites...)...)
-		}) {
+		var createWrites []ssa.CallInstruction
+		for _, g := range e.withPkgHelpers(create) {
+			if g != create && ir.UniqueSite(g) == nil {
+				continue // shared helpers are judged where they write for this operation only if inlined
+			}
+			createWrites = append(createWrites, ir.CallsIn(g, func(c *ssa.CallCommon) bool {
+				return ir.IsCallTo(c, append([]string{"os.OpenFile", "os.Rename"}, truncatingWrites...)...)
+			})...)
+		}
+		for _, ci := range createWrites {
 			n++
 			lits := e.DCS(ci)
-			ok := existsLit(lits, ci.Common().Args[0], false)
+			ok := e.existsAll(lits, ci.Common().Args[0], false)
 			if ir.IsCallTo(ci.Common(), "os.OpenFile") {
 				// O_EXCL is an atomic alternative
 				if fl, isC := ir.ConstInt(ci.Common().Args[1]); isC && fl&0x80 != 0 {
@@ -107,7 +138,7 @@ func c18Guards(e *Env) {
 							same = true // renaming a file onto itself replaces nothing
 						}
 					}
-					if !existsLit(lits, dst, false) && !same {
+					if !e.existsAll(lits, dst, false) && !same {
 						good = false
 						bad = append(bad, "{"+strings.Join(e.RenderN(lits), " ; ")+"}")
 					}
@@ -146,19 +177,26 @@ func c18Guards(e *Env) {
 		}) {
 			n++
 			lits := e.DCS(ci)
-			valid := false
-			for _, l := range lits {
-				if l.Kind == "cmp" && l.Op == token.EQL && ir.IsNilConst(l.Y) {
-					if ex, ok := ir.Resolve(l.X).(*ssa.Extract); ok {
-						if c, ok := ex.Tuple.(*ssa.Call); ok && strings.HasSuffix(ir.CalleeName(&c.Call), "internal/dag.LoadYAML") && ir.Resolve(c.Call.Args[0]) == spec {
-							valid = true
+			alts := e.expandBound(lits)
+			valid := len(alts) > 0
+			for _, alt := range alts {
+				v := false
+				for _, l := range alt {
+					if l.Kind == "cmp" && l.Op == token.EQL && ir.IsNilConst(l.Y) {
+						if ex, ok := ir.Resolve(l.X).(*ssa.Extract); ok {
+							if c, ok := ex.Tuple.(*ssa.Call); ok && strings.HasSuffix(ir.CalleeName(&c.Call), "internal/dag.LoadYAML") && l.Val(c.Call.Args[0]) == spec {
+								v = true
+							}
 						}
 					}
+				}
+				if !v {
+					valid = false
 				}
 			}
 			r.Check(valid, "UpdateSpec: "+shortCallee(ci.Common())+" only after LoadYAML(spec)==nil", e.InstrPos(ci),
 				"a definition is written although the new text was not (successfully) validated", e.FactsStr("dominating conditions: ", lits))
-			r.Check(existsLit(lits, nil, true), "UpdateSpec: "+shortCallee(ci.Common())+" only when the DAG file exists", e.InstrPos(ci),
+			r.Check(e.existsAll(lits, nil, true), "UpdateSpec: "+shortCallee(ci.Common())+" only when the DAG file exists", e.InstrPos(ci),
 				"saving creates a DAG that does not exist", e.FactsStr("dominating conditions: ", lits))
 		}
 		if n == 0 {
@@ -225,7 +263,32 @@ func (e *Env) staticClosure(from *ssa.Function) []*ssa.Function {
 func c18AtomicSave(e *Env, update *ssa.Function, spec ssa.Value) {
 	r := e.R
 	r.Rule("C18.atomic-save", "VF", "final location is not written in place", 1)
-	noLoc := func(f *ssa.Function) bool { return e.P.Funcs[f] && !strings.HasSuffix(f.Name(), "fileLocation") }
+	// the definition's location: the value whose existence UpdateSpec requires before
+	// writing; the function computing it (whatever it is called) is not looked into
+	var locFn *ssa.Function
+	for _, b := range update.Blocks {
+		for _, in := range b.Instrs {
+			c, ok := in.(*ssa.Call)
+			if !ok {
+				continue
+			}
+			if is, _ := e.existsPredicate(c.Call.StaticCallee()); is {
+				v := ir.Resolve(c.Call.Args[0])
+				if ex, isE := v.(*ssa.Extract); isE {
+					v = ex.Tuple
+				}
+				if lc, isC := v.(*ssa.Call); isC && lc.Call.StaticCallee() != nil && e.P.Funcs[lc.Call.StaticCallee()] {
+					locFn = lc.Call.StaticCallee()
+				}
+			}
+		}
+	}
+	if locFn == nil {
+		r.Unknown("UpdateSpec: the definition's location", e.Pos(update.Pos()), "no existence test of a computed location found")
+		return
+	}
+	locName := ir.FuncName(locFn)
+	noLoc := func(f *ssa.Function) bool { return e.P.Funcs[f] && f != locFn }
 	up := func(f *ssa.Function) []ssa.CallInstruction {
 		if f == update {
 			return nil
@@ -242,7 +305,7 @@ func c18AtomicSave(e *Env, update *ssa.Function, spec ssa.Value) {
 			return false
 		}
 		for _, l := range ls {
-			if !(l.Kind == "call" && strings.HasSuffix(l.Name, ".fileLocation")) {
+			if !(l.Kind == "call" && l.Name == locName) {
 				return false
 			}
 		}
@@ -303,11 +366,19 @@ func c18AtomicSave(e *Env, update *ssa.Function, spec ssa.Value) {
 			okWrite := cr != nil && w != nil
 			okAfter := false
 			if okWrite {
-				for _, l := range e.DCS(rs) {
-					if l.Kind == "cmp" && l.Op == token.EQL && ir.IsNilConst(l.Y) {
-						if ex, ok := ir.Resolve(l.X).(*ssa.Extract); ok && ex.Tuple == ssa.Value(w.(*ssa.Call)) {
-							okAfter = true
+				alts := e.expandBound(e.DCS(rs))
+				okAfter = len(alts) > 0
+				for _, alt := range alts {
+					found := false
+					for _, l := range alt {
+						if l.Kind == "cmp" && l.Op == token.EQL && ir.IsNilConst(l.Y) {
+							if ex, ok := ir.Resolve(l.X).(*ssa.Extract); ok && ex.Tuple == ssa.Value(w.(*ssa.Call)) {
+								found = true
+							}
 						}
+					}
+					if !found {
+						okAfter = false
 					}
 				}
 			}
@@ -337,8 +408,14 @@ func c18Order(e *Env) {
 		return func(c *ssa.CallCommon) bool { return c.IsInvoke() && ir.CalleeName(c) == name }
 	}
 	if ren != nil {
-		fileRen := ir.CallsIn(ren, invoke("iface:github.com/ErdemOzgen/blackdagger/internal/persistence.DAGStore.Rename"))
-		histRen := ir.CallsIn(ren, invoke("iface:github.com/ErdemOzgen/blackdagger/internal/persistence.HistoryStore.Rename"))
+		var fileRen, histRen []ssa.CallInstruction
+		for _, g := range e.withPkgHelpers(ren) {
+			if g != ren && ir.UniqueSite(g) == nil {
+				continue
+			}
+			fileRen = append(fileRen, ir.CallsIn(g, invoke("iface:github.com/ErdemOzgen/blackdagger/internal/persistence.DAGStore.Rename"))...)
+			histRen = append(histRen, ir.CallsIn(g, invoke("iface:github.com/ErdemOzgen/blackdagger/internal/persistence.HistoryStore.Rename"))...)
+		}
 		if len(fileRen) != 1 || len(histRen) != 1 {
 			r.Bad("client.Rename: one definition rename and one history rename", e.Pos(ren.Pos()), sprintf("found %d / %d", len(fileRen), len(histRen)))
 		} else {
@@ -355,12 +432,12 @@ func c18Order(e *Env) {
 			a := histRen[0].Common().Args
 			okKeys := len(a) == 2 && e.IsFieldRead(a[0], nil, "Location") && e.IsFieldRead(a[1], nil, "Location")
 			if okKeys {
-				p0, _ := e.C.PathOf(a[0])
-				p1, _ := e.C.PathOf(a[1])
+				p0, _ := e.pathThroughParams(a[0])
+				p1, _ := e.pathThroughParams(a[1])
 				c0, ok0 := findCall(p0.Root)
 				c1, ok1 := findCall(p1.Root)
-				okKeys = ok0 && ok1 && ir.Resolve(c0.Call.Args[0]) == ssa.Value(ren.Params[1]) && ir.Resolve(c1.Call.Args[0]) == ssa.Value(ren.Params[2]) &&
-					ir.Precedes(c0, fileRen[0]) && ir.Precedes(fileRen[0], c1)
+				okKeys = ok0 && ok1 && ir.Deep(c0.Call.Args[0]) == ssa.Value(ren.Params[1]) && ir.Deep(c1.Call.Args[0]) == ssa.Value(ren.Params[2]) &&
+					liftedPrecedes(c0, fileRen[0]) && liftedPrecedes(fileRen[0], c1)
 			}
 			r.Check(okKeys, "client.Rename: history keyed by Find(old).Location (before) and Find(new).Location (after)", e.InstrPos(histRen[0]),
 				"the history rename is not keyed by the old and the new definition's locations")
